@@ -187,6 +187,9 @@ class Fingerprint(object):
     """
 
     vector_dtype = FP_DTYPE
+    # NumPy scalars on the left of an operator defer to the reflected method at
+    # once instead of first reading the fingerprint as a sequence of `bits` items
+    __array_ufunc__ = None
 
     def __init__(
         self, indices, bits=BITS_DEF, level=-1, name=None, props={}, **kwargs
